@@ -1,6 +1,7 @@
 import Receptor.Drive.Util
 import Receptor.Model.Verify
 import Receptor.Model.DER
+import Receptor.Generated.Facts
 namespace Receptor.Drive.Cert
 open Lean Receptor.Drive Receptor.Verify
 
@@ -87,12 +88,17 @@ def handle (op : String) (a r : Json) : Except String Reply := do
     let require ← getBool a "require"
     let cas ← getBool a "cas"
     let pres ← getStrList a "present"
+    let pinned := (getBool a "pinned").toOption.getD false
+    -- the listener's per-connection verifier keeps the pins of the server profile (regenerated fact)
+    let keepsPins : Bool := Receptor.Facts.tls_listener_pins = "chained-with-profile-verifier"
+    let pinA : Bytes := 1 :: List.replicate 31 0
+    let pins : List Bytes := if pinned then [pinA] else []
     let node2 := "node2".toUTF8.toList.map (·.toNat)
     let node3 := "node3".toUTF8.toList.map (·.toNat)
     let mk (ids : List Bytes) (trusted valid clientUse : Bool) : Peer :=
       -- without a `clientcas` bundle the listener has no authority to chain a client certificate to
       { parsed := true, chainOK := trusted && cas, validNow := valid, usageServer := true, usageClient := clientUse, dnsOK := true,
-        names := some ids, digest := fun _ => [] }
+        names := some ids, digest := fun n => 2 :: List.replicate (n - 1) 0 }
     let certOf : String → Option Peer
       | "own" => some (mk [node2] true true true)
       | "other" => some (mk [node3] true true true)
@@ -100,15 +106,18 @@ def handle (op : String) (a r : Json) : Except String Reply := do
       | "otherca" => some (mk [node2] false true true)
       | "expired" => some (mk [node2] true false true)
       | "serverusage" => some (mk [node2] true true false)
+      | "ownpinned" => some { mk [node2] true true true with digest := fun n => 1 :: List.replicate (n - 1) 0 }
       | _ => none
-    let m := jObj [("established", jArr (pres.map fun p => Json.bool (established require cas node2 (certOf p))))]
-    let holds := r == m
+    let m := jObj [("established", jArr (pres.map fun p => Json.bool (established require cas node2 (certOf p) pins keepsPins)))]
+    let spec := jObj [("established", jArr (pres.map fun p => Json.bool (established require cas node2 (certOf p) pins true)))]
+    let holds := r == spec
     let obs := (getArr r "established").toOption.getD []
-    let tooMany := (obs.zip (pres.map fun p => established require cas node2 (certOf p))).any fun (o, e) => o == Json.bool true && !e
+    let tooMany := (obs.zip (pres.map fun p => established require cas node2 (certOf p) pins true)).any fun (o, e) => o == Json.bool true && !e
     pure { m := m, prop := some holds,
            why := if holds then "" else (if tooMany then "a stream was established on a TLS listener by a client that the listener's profile must refuse (another node's identity, no certificate, untrusted, expired or unusable certificate)"
                   else "a client that the listener's profile admits could not establish a stream"),
-           sig := if holds then "" else (if tooMany then "C09/mtls/inadmissible-client-established" else "C09/mtls/admissible-client-refused") }
+           sig := if holds then "" else (if tooMany then (if pinned then "C09/mtls/unpinned-client-established" else "C09/mtls/inadmissible-client-established")
+                                         else "C09/mtls/admissible-client-refused") }
   | "verifytime" =>
     let role := if (getStr a "role").toOption.getD "server" == "client" then Role.client else Role.server
     let peer (valid : Bool) : Peer :=
@@ -121,6 +130,48 @@ def handle (op : String) (a r : Json) : Except String Reply := do
     pure { m := m, prop := some holds,
            why := if holds then "" else "a verifier created earlier did not judge validity at the time of the handshake (a certificate issued since was refused, or one expired since was accepted)",
            sig := if holds then "" else "C09/verifytime/validity-not-judged-at-handshake-time" }
+  | "verifychain" =>
+    let chain ← getArr a "chain"
+    let expected ← getHex a "expected"
+    let role := if (getStr a "role").toOption.getD "server" == "client" then Role.client else Role.server
+    let peers ← chain.mapM fun c => do
+      let ids ← (← c.getArr?).toList.mapM fun x => do
+        match fromHex (← x.getStr?) with
+        | some b => pure b
+        | none => throw "bad hex"
+      pure ({ parsed := true, chainOK := true, validNow := true, usageServer := true, usageClient := true, dnsOK := false,
+              names := some ids, digest := fun _ => [] } : Peer)
+    let acc := decideChain { pins := [], expected := expected, mode := .receptor, role := role } peers
+    let m := jObj [("accept", Json.bool acc)]
+    let holds := r == m
+    pure { m := m, prop := some holds,
+           why := if holds then "" else "the verdict on a presented chain is not the verdict on its first certificate (a name carried only by an appended certificate was accepted, or the leaf's own name refused)",
+           sig := if holds then "" else (if acc then "C09/verifychain/own-name-refused" else "C09/verifychain/name-of-an-appended-certificate-accepted") }
+  | "clientcfgseq" =>
+    if let some e := optField r "error" then throw s!"harness error: {e.compress}"
+    let calls ← getArr a "calls"
+    let present ← getArr a "present"
+    let peersIds ← present.mapM fun c => do
+      (← c.getArr?).toList.mapM fun x => do
+        match fromHex (← x.getStr?) with
+        | some b => pure b
+        | none => throw "bad hex"
+    -- every call is judged on its own: the profile is cloned before it is modified (regenerated fact)
+    let spec ← calls.mapM fun c => do
+      let expected ← getHex c "expected"
+      let dns := (← getStr c "mode") == "dns"
+      let accs := peersIds.map fun ids =>
+        let p : Peer := { parsed := true, chainOK := true, validNow := true, usageServer := true, usageClient := true,
+                          dnsOK := ids.contains expected, names := some ids, digest := fun _ => [] }
+        Json.bool (decide { pins := [], expected := expected, mode := if dns then .dns else .receptor, role := .server } p)
+      pure (jObj [("accepts", jArr accs), ("server_name", jHex (if dns then expected else [])), ("skip_default", Json.bool (!dns))])
+    let specJ := jObj [("calls", jArr spec)]
+    let independent : Bool := Receptor.Facts.tls_client_cfg_clone = "clone-before-first-write;returns:tlscfg"
+    let m := if independent then specJ else jObj [("unmodelled", Json.str "the stored client profile is modified by GetClientTLSConfig: later calls depend on earlier ones")]
+    let holds := r == specJ
+    pure { m := m, prop := some holds,
+           why := if holds then "" else "a named TLS client profile used for several connections: a later connection was not verified against its own expected peer (the verifier, server name or default check of an earlier connection was reused)",
+           sig := if holds then "" else "C09/clientcfgseq/verifier-of-an-earlier-connection-reused" }
   | _ => throw s!"bad-op cert {op}"
 
 end Receptor.Drive.Cert
